@@ -22,7 +22,7 @@ let parse_zones spec : ZoneTree.zone option array =
   if spec = "-" then [||] else
   Array.of_list (Stdlib.List.map (fun e ->
     match String.split_on_char ',' e with
-    | cl :: nm :: st :: rest when st <> "N" && st <> "F" ->
+    | cl :: nm :: st :: rest when st <> "N" && st <> "F" && st <> "R" ->
       let cls = n_of_int (int_of_string cl) in
       let apex = Server.wire_labels (unhex nm) in
       let recs = (match rest with
@@ -82,24 +82,27 @@ let render_octets (b : BinNums.coq_N list) =
       (Stdlib.List.length m.MsgWriterS.m_ar)
       (String.concat "," (Stdlib.List.map q m.MsgWriterS.m_qs)) (sec m.MsgWriterS.m_an) (sec m.MsgWriterS.m_ns) (sec m.MsgWriterS.m_ar) (hex b)
 
-let parse_catalog spec =
+(* the catalog is built the way the server's configuration builds it: Catalog::insert of every entry in
+   order into the hash-map tree (Model/CatTree.v; a later entry with an equal (class, name) replaces the
+   earlier one inside the tree); the server model then runs on the flat view of that tree
+   (Model/ServerCat.v), which Props/C07.v c07_catalog_tree_link proves equivalent to the tree's own lookup *)
+let parse_catalog spec : Server.entry_kind CatTree.cat_op list =
   if spec = "-" then [] else
   Stdlib.List.mapi (fun i e ->
     match String.split_on_char ',' e with
+    | cl :: nm :: "R" :: _ ->       (* Catalog::remove at this point of the history *)
+      CatTree.OpRemove (Server.wire_labels (unhex nm), n_of_int (int_of_string cl))
     | cl :: nm :: st :: _ ->
-      { Server.e_class = n_of_int (int_of_string cl); Server.e_name = labels_of_wirehex nm;
-        Server.e_kind = (match st with "N" -> Server.ENotYetLoaded | "F" -> Server.EFailedToLoad
-                                     | _ -> Server.ELoaded (nat_of_int i)) }
+      CatTree.OpInsert
+        { CatTree.e_class = n_of_int (int_of_string cl); CatTree.e_name = Server.wire_labels (unhex nm);
+          CatTree.e_val = (match st with "N" -> Server.ENotYetLoaded | "F" -> Server.EFailedToLoad
+                                       | _ -> Server.ELoaded (nat_of_int i)) }
     | _ -> failwith "bad catalog entry") (String.split_on_char ';' spec)
 
-(* HashMap insert: a later entry with an equal (class, name) replaces the earlier one *)
-let dedup_catalog es =
-  let rec go acc = function
-    | [] -> Stdlib.List.rev acc
-    | e :: rest ->
-      let same x = x.Server.e_class = e.Server.e_class && x.Server.e_name = e.Server.e_name in
-      go (e :: Stdlib.List.filter (fun x -> not (same x)) acc) rest in
-  go [] es
+let tree_catalog ops =
+  match ServerCat.tree_of_history ops with
+  | Res.Ok c -> ServerCat.flat_of_tree c
+  | _ -> failwith "catalog operation panicked"
 
 let parse_keys spec =
   if spec = "-" then [] else
@@ -119,8 +122,39 @@ let parse_keys spec =
 let show_q (q : Reader.question) =
   Printf.sprintf "%s/%d/%d" (hex q.Reader.q_name.NameWire.n_wire) (n q.Reader.q_type) (n q.Reader.q_class)
 
+(* ---- the spec-level oracle columns (Spec/MsgWalkS.v, extracted): independent of the server model ---- *)
+let show_problem = function
+  | MsgWalkS.QuestionUnparseable -> "QuestionUnparseable"
+  | MsgWalkS.RecordUndelimitable i -> Printf.sprintf "RecordUndelimitable:%d" (int_of_nat i)
+  | MsgWalkS.PseudoOutsideAdditional i -> Printf.sprintf "PseudoOutsideAdditional:%d" (int_of_nat i)
+  | MsgWalkS.SecondOpt i -> Printf.sprintf "SecondOpt:%d" (int_of_nat i)
+  | MsgWalkS.OptMalformed i -> Printf.sprintf "OptMalformed:%d" (int_of_nat i)
+  | MsgWalkS.TsigNotLast i -> Printf.sprintf "TsigNotLast:%d" (int_of_nat i)
+  | MsgWalkS.TsigMalformed i -> Printf.sprintf "TsigMalformed:%d" (int_of_nat i)
+  | MsgWalkS.QueryWithoutQuestion -> "QueryWithoutQuestion"
+  | MsgWalkS.TrailingOctets -> "TrailingOctets"
+let show_verdict = function
+  | MsgWalkS.VSilent -> "silent"
+  | MsgWalkS.VFormerr p -> "formerr:" ^ show_problem p
+  | MsgWalkS.VBadVers i -> Printf.sprintf "badvers:%d" (int_of_nat i)
+  | MsgWalkS.VTsig (i, t) -> Printf.sprintf "tsig:%d:%s" (int_of_nat i) (match t with None -> "none" | Some p -> show_problem p)
+  | MsgWalkS.VClean -> "clean"
+let rec drop k l = if k <= 0 then l else match l with [] -> [] | _ :: r -> drop (k - 1) r
+(* the request's question octets when the QNAME is uncompressed (qname_uncompressed) and QTYPE/QCLASS are present *)
+let question_octets req =
+  match MsgWalkS.s_first_name req (nat_of_int 12) with
+  | Some (e, false) ->
+    let e = int_of_nat e in
+    if e + 4 <= Stdlib.List.length req then hex (take (e + 4 - 12) (drop 12 req)) else "-"
+  | _ -> "-"
+let spec_columns req =
+  Printf.sprintf " fp=%s sopt=%d qoct=%s" (show_verdict (MsgWalkS.first_problem req))
+    (if MsgWalkS.s_opt_reached req then 1 else 0) (question_octets req)
+
 let () = run_lines (fun f ->
-  let dup s = s ^ " | " ^ s in      (* the model line doubles as the property oracle (see Props/C0x.v) *)
+  (* the model line doubles as the property oracle (see Props/C0x.v); the oracle column also carries the verdicts of the
+     extracted spec-level classifier, which Props/C08.v / C09.v / C03.v prove the model obeys *)
+  let dup s = s ^ " | " ^ s ^ (match f with [_; _; _; _; req] -> spec_columns (unhex req) | _ -> "") in
   dup (match f with
   | [tr; edns; cat; keys; req] ->
     let answered = ref false and verified = ref false and reached = ref None in
@@ -129,7 +163,7 @@ let () = run_lines (fun f ->
     let cfg = { Server.c_transport = (if tr = "t" then Server.Tcp else Server.Udp);
                 Server.c_edns_size = n_of_int (int_of_string edns);
                 Server.c_buflen = nat_of_int 65535;
-                Server.c_catalog = dedup_catalog (parse_catalog cat);
+                Server.c_catalog = tree_catalog (parse_catalog cat);
                 Server.c_keys = parse_keys keys; Server.c_now = n_of_int 0 } in
     (match Server.handle_message answer verify cfg (unhex req) with
      | Res.Panic -> "panic"
